@@ -630,11 +630,10 @@ class ObjectIdentifier(DERType):
         if not content:
             raise ASN1DecodeError('Empty object identifier')
 
-        b = content[0]
-        components = list(divmod(b, 40)) if b < 80 else [2, b-80]
-
+        components = []
         component = 0
-        for b in content[1:]:
+
+        for b in content:
             if b == 0x80 and component == 0:
                 raise ASN1DecodeError('Invalid component')
             elif b < 0x80:
@@ -646,6 +645,10 @@ class ObjectIdentifier(DERType):
 
         if component:
             raise ASN1DecodeError('Incomplete component')
+
+        first = components[0]
+        components[0:1] = list(divmod(first, 40)) if first < 80 \
+            else [2, first-80]
 
         return cls('.'.join(str(c) for c in components))
 
